@@ -416,7 +416,8 @@ func (r *Run) WantSample() bool {
 func (r *Run) Fail(sig, caseID, msg string, witness interface{}) {
 	r.mu.Lock()
 	r.res.FailCounts[sig]++
-	if r.res.FailCounts[sig] <= 3 && len(r.res.Failures) < r.maxFail {
+	// always keep the first failure of a signature (up to 400 signatures), then up to 3 per signature within maxFail
+	if (r.res.FailCounts[sig] == 1 && len(r.res.Failures) < 400) || (r.res.FailCounts[sig] <= 3 && len(r.res.Failures) < r.maxFail) {
 		r.res.Failures = append(r.res.Failures, Failure{Sig: sig, Case: caseID, Msg: msg, Witness: witness})
 	}
 	r.mu.Unlock()
